@@ -936,6 +936,62 @@ func runC20(cfg Config) {
 		orig := desync.NewChunk(data)
 		id := orig.ID()
 		src.StoreChunk(orig)
+		// every fourth source object is damaged before it is read (cut short, a flipped bit, other bytes, emptied).  A source
+		// that verifies must refuse it (C03).  A source that does not verify hands out a chunk object carrying those bytes;
+		// whatever the target then does with it, what it leaves under the chunk's name must be in its own format: one
+		// complete zstd frame in a compressed store (the decoder of either library must accept the file), or nothing
+		if it%4 == 3 {
+			sidS := hx(id[:])
+			extS := ".cacnk"
+			if srcUnc {
+				extS = ""
+			}
+			sp := filepath.Join(sdir, sidS[:4], sidS+extS)
+			sb, _ := os.ReadFile(sp)
+			kind := rng.Intn(4)
+			switch kind {
+			case 0:
+				sb = sb[:rng.Intn(len(sb))]
+			case 1:
+				sb[rng.Intn(len(sb))] ^= 1 << uint(rng.Intn(8))
+			case 2:
+				sb = randBytes(rng, 1+rng.Intn(60))
+			default:
+				sb = nil
+			}
+			os.WriteFile(sp, sb, 0644)
+			caseLine := fmt.Sprintf("cross-format-damaged src-uncompressed=%v dst-uncompressed=%v src-skipverify=%v damage=%d data=%s stored=%s", srcUnc, dstUnc, skip, kind, clip(hx(data), 200), clip(hx(sb), 400))
+			rep.Count(caseLine, true, "cross-format-damaged", fmt.Sprintf("damaged/src-unc:%v/dst-unc:%v/skip:%v", srcUnc, dstUnc, skip))
+			c, err := src.GetChunk(id)
+			if err != nil {
+				continue
+			}
+			serr := dst.StoreChunk(c)
+			sidD := hx(id[:])
+			extD := ".cacnk"
+			if dstUnc {
+				extD = ""
+			}
+			raw, rerr := os.ReadFile(filepath.Join(ddir, sidD[:4], sidD+extD))
+			if serr != nil {
+				if rerr == nil {
+					monitor("StoreChunk failed ("+serr.Error()+") but left a file under the chunk's name", caseLine, "")
+				}
+				continue
+			}
+			if rerr != nil {
+				monitor("StoreChunk reported success but the file its format prescribes is not there: "+rerr.Error(), caseLine, "")
+				continue
+			}
+			if !dstUnc {
+				if _, derr := desync.Decompress(nil, raw); derr != nil {
+					monitor(fmt.Sprintf("StoreChunk reported success but the %d bytes it left in a compressed store are not a complete zstd frame: %v", len(raw), derr), caseLine, "")
+				} else if _, _, werr := walkZstdFrames(raw); werr != nil {
+					monitor(fmt.Sprintf("StoreChunk reported success but the %d bytes it left in a compressed store are not one standard zstd frame: %v", len(raw), werr), caseLine, "")
+				}
+			}
+			continue
+		}
 		c, err := src.GetChunk(id)
 		caseLine := fmt.Sprintf("cross-format src-uncompressed=%v dst-uncompressed=%v src-skipverify=%v data=%s", srcUnc, dstUnc, skip, clip(hx(data), 200))
 		rep.Count(caseLine, srcUnc != dstUnc, "cross-format", fmt.Sprintf("src-unc:%v/dst-unc:%v/skip:%v", srcUnc, dstUnc, skip))
